@@ -348,3 +348,60 @@ Theorem initialised_rates_exact_not_same : forall ex pi rho rich simple pm rules
     (Q_nonstationary rich (theta_from_q (update_param_rules_not_same pi rho rich pm rules)) c * rho
      = Q_stationary pi simple (theta_from_q rules) c)%Qc.
 Proof. exact init_rates_exact_ns_lemma. Qed.
+
+(** Part 3, rules with "init"/"value" fields: a CONSTANT term of the nested model
+    (its number sits under "value") goes through the projection exactly like a
+    free one: what update_rule_value hands to the rich rule is the PROJECTED
+    number, and the rule keeps its scope *)
+Theorem constant_terms_are_projected : forall pi rho rich pm r mle r',
+  name_eqb (p_par r) n_mprobs || name_eqb (p_par r) n_length = false ->
+  p_mle r = Some mle -> In r' (project_prule pi rho rich pm r) ->
+  exists v, In (p_par r', v) (rate_not_same pi rho rich pm (p_par r) mle) /\
+            null_rule_value r' = Some v /\ p_edges r' = p_edges r.
+Proof. exact project_prule_value_lemma. Qed.
+
+Theorem projected_rule_values_agree : forall pi rho rich pm r mle,
+  name_eqb (p_par r) n_mprobs || name_eqb (p_par r) n_length = false ->
+  p_mle r = Some mle ->
+  map (fun r' => (p_par r', null_rule_value r')) (project_prule pi rho rich pm r)
+  = map (fun nv => (fst nv, Some (snd nv))) (rate_not_same pi rho rich pm (p_par r) mle).
+Proof. exact project_prule_agrees_lemma. Qed.
+
+(** reading "value" before "init" would hand over the un-projected constant (witness) *)
+Theorem value_first_reads_unprojected :
+  let pi := fun j : Z => if j =? 1 then Q2Qc (1 # 2) else Q2Qc (1 # 4) in
+  let rich := [([1], [(0, 1)]); (ref_cell, [(1, 0)])] in
+  let pm := [([9], [[1]])] in
+  let r := mkprule [9] None true (Some (Q2Qc 2)) None in
+  map null_rule_value (project_prule pi (Q2Qc (1 # 4)) rich pm r) = [Some (Q2Qc 4)] /\
+  map null_rule_value_value_first (project_prule pi (Q2Qc (1 # 4)) rich pm r) = [Some (Q2Qc 2)].
+Proof. exact value_first_unprojected_witness. Qed.
+
+(** Part 6: bounds declared per scope of a parameter (_LeafDefn.assign_all,
+    get_current_bounds), Model/ScopeBounds.v.  Rules that only re-scope a
+    parameter (no lower/upper stated) keep every cell's declared bounds; stated
+    bounds win on the selected cells only.  So "every optimised value lies
+    within the bounds declared for its cell" follows from [within_bounds]. *)
+From CG3 Require Import Model.ScopeBounds Proofs.ScopeBoundsProofs.
+
+Theorem independent_split_keeps_declared_bounds : forall t edges e,
+  NoDup (map fst t) -> blookup (apply_rule t edges true None None) e = blookup t e.
+Proof. exact independent_split_keeps_lemma. Qed.
+
+Theorem uniform_scope_keeps_declared_bounds : forall t scope b e,
+  (forall c, In c t -> mem_name (fst c) scope = true -> snd c = b) ->
+  blookup (assign_scope t scope None None) e = blookup t e.
+Proof. exact assign_scope_keeps_lemma. Qed.
+
+Theorem stated_bounds_win_on_selected_cells : forall t scope lo hi e,
+  envelope t scope <> None ->
+  blookup (assign_scope t scope (Some lo) (Some hi)) e
+  = if mem_name e scope then match blookup t e with Some _ => Some (lo, hi) | None => None end else blookup t e.
+Proof. exact assign_scope_states_lemma. Qed.
+
+(** computing the inherited bounds once for the whole selection widens them (witness) *)
+Theorem envelope_of_selection_widens_bounds :
+  let t := [([97], (5, 20)); ([98], (5, 20)); ([99], (0, 1000)); ([100], (0, 1000))] in
+  apply_rule t [[97]; [98]; [99]; [100]] true None None = t /\
+  blookup (apply_rule_envelope_of_selection t [[97]; [98]; [99]; [100]] true None None) [97] = Some (0, 1000).
+Proof. exact split_rule_bounds_witness. Qed.
